@@ -7,7 +7,8 @@
   * Go recursion that is not structural carries fuel: `resolveType` (the jump into the body of a common
     type), the DFS of `validateActionMembership`, `isEntityDescendant`, `isActionDescendant`, and the
     `for changed` loop of `getEntityTypesIn`.  `none` = out of fuel.  CedarGoProofs/Properties/C16.lean
-    proves which of them never run out (and that `isEntityDescendant` does, for every fuel).
+    proves that none of them runs out (`isEntityDescendant` since it threads a visited set; `resolveType` since the
+    Kahn pass and the resolver read the declaring namespace of a common type from the same table).
 -/
 import CedarGo.Model.Schema.Ast
 namespace CedarGo.Schema
@@ -25,7 +26,9 @@ def lastSepPrefix : List Char → Option (List Char)
 /-- `strings.Contains(s, "::")` -/
 def hasSep (s : String) : Bool := (lastSepPrefix s.toList).isSome
 
-/-- `extractNamespace` -/
+/-- `extractNamespace` as it existed before the repair of `resolve-common-type-cycle-undetected` (the resolver derived
+    the declaring namespace of a common type from its qualified name; it is now recorded at registration, `RState.nsOf`).
+    Kept for the regression example in Properties/C16.lean. -/
 def extractNamespace (s : String) : String :=
   match lastSepPrefix s.toList with
   | some p => String.ofList p
@@ -116,16 +119,20 @@ structure RState where
   entityTypes : List String := []
   enumTypes : List String := []
   commonTypes : List (String × Ty) := []
+  commonNS : List (String × String) := []    -- `commonTypeNS`: qualified name ↦ namespace the common type was declared in
 
 def RState.isEntity (r : RState) (n : String) : Bool := r.entityTypes.contains n || r.enumTypes.contains n
 def RState.common? (r : RState) (p : String) : Option Ty := r.commonTypes.lookup p
+/-- `r.commonTypeNS[p]` (a missing key reads as `""`) -/
+def RState.nsOf (r : RState) (p : String) : String := (r.commonNS.lookup p).getD ""
 
 def registerDecls (r : RState) (ns : String) (d : Namespace) : Except RErr RState :=
   if d.entities.any (fun e => d.enums.any (fun en => en.1 == e.1)) then .error .declaredTwice
   else .ok {
     entityTypes := r.entityTypes ++ d.entities.map (fun e => qualify ns e.1)
     enumTypes := r.enumTypes ++ d.enums.map (fun e => qualify ns e.1)
-    commonTypes := r.commonTypes ++ d.commonTypes.map (fun c => (qualify ns c.1, c.2.ty)) }
+    commonTypes := r.commonTypes ++ d.commonTypes.map (fun c => (qualify ns c.1, c.2.ty))
+    commonNS := r.commonNS ++ d.commonTypes.map (fun c => (qualify ns c.1, ns)) }
 
 def registerAll (s : Schema) : Except RErr RState := do
   let r ← registerDecls {} "" s.bare
@@ -164,7 +171,7 @@ def resolveTypeRefPath (r : RState) (ns ref : String) : String :=
 /-- the dependency list `deps[name]` built by `detectCommonTypeCycles` (duplicates kept, as in Go) -/
 def depsOf (r : RState) (name : String) (body : Ty) : List String :=
   (collectTypeRefs body).filterMap fun ref =>
-    let p := resolveTypeRefPath r (extractNamespace name) ref
+    let p := resolveTypeRefPath r (r.nsOf name) ref
     if (r.common? p).isSome then some p else none
 
 /-- keys of a Go map: every name once (first occurrence kept) -/
@@ -231,7 +238,7 @@ def resolveEntityTypeRef (r : RState) (ns ref : String) : Except RErr String :=
 
 /-- what a `TypeRef` denotes (`resolveTypeRef` / `resolveQualifiedTypeRef` up to the recursive call) -/
 inductive RefTarget where
-  | common (ns : String) (body : Ty)     -- recurse into `body`, resolving its names in `ns`
+  | common (ns : String) (body : Ty)     -- recurse into `body`, resolving its names in `ns` (= the recorded declaring namespace)
   | entity (name : String)
   | builtin (t : RTy)
   | undefined (e : RErr)
@@ -245,15 +252,15 @@ def lookupTypeRef (r : RState) (ns ref : String) : RefTarget :=
       | none => .undefined .undefinedBuiltin
     | none =>
       match r.common? ref with
-      | some ct => .common (extractNamespace ref) ct
+      | some ct => .common (r.nsOf ref) ct
       | none => if r.isEntity ref then .entity ref else .undefined .undefinedType
   else
     match (if ns ≠ "" then r.common? (ns ++ "::" ++ ref) else none) with
-    | some ct => .common ns ct
+    | some ct => .common (r.nsOf (ns ++ "::" ++ ref)) ct
     | none =>
       if ns ≠ "" ∧ r.isEntity (ns ++ "::" ++ ref) then .entity (ns ++ "::" ++ ref)
       else match r.common? ref with
-        | some ct => .common "" ct
+        | some ct => .common (r.nsOf ref) ct
         | none =>
           if r.isEntity ref then .entity ref
           else match lookupBuiltin ref with
@@ -438,14 +445,37 @@ def descListWith {α} [DecidableEq α] (k : α → Option Bool) (anc : α) : Lis
       | some true => some true
       | some false => descListWith k anc ps
 
-/-- the recursion shared by `isEntityDescendant` and `isActionDescendant`: plain depth-first descent over the
-    successor lists, NO visited set; `none` = out of fuel -/
+/-- the recursion of `isActionDescendant` (and, before the repair of `entity-descendant-unbounded-recursion`, of
+    `isEntityDescendant`): plain depth-first descent over the successor lists, NO visited set; `none` = out of fuel -/
 def descFuel {α} [DecidableEq α] (succ : α → List α) : Nat → α → α → Option Bool
   | 0, _, _ => none
   | fuel + 1, child, anc => descListWith (fun p => descFuel succ fuel p anc) anc (succ child)
 
-/-- `isEntityDescendant` (cedar_type.go): recursion over `ParentTypes` -/
-def isEntityDescendantFuel (rs : RSchema) : Nat → String → String → Option Bool := descFuel rs.entityParents
+/-- the parent loop of `isEntityDescendantFrom`, threading the `visited` map (a Go map is shared by reference, so what
+    one recursive call adds is seen by the later iterations):
+    `for _, parent := range parents { if parent == anc { return true }; if rec(parent, visited) { return true } }; return false` -/
+def descListVis {α} [DecidableEq α] (k : α → List α → Option (Bool × List α)) (anc : α) :
+    List α → List α → Option (Bool × List α)
+  | [], vis => some (false, vis)
+  | p :: ps, vis =>
+    if p = anc then some (true, vis)
+    else match k p vis with
+      | none => none
+      | some (true, vis') => some (true, vis')
+      | some (false, vis') => descListVis k anc ps vis'
+
+/-- `isEntityDescendantFrom` (cedar_type.go): depth-first search with a visited set — a type already in `visited`
+    answers `false` at once, otherwise it is added and its parents are searched.  Returns the answer and the final
+    visited set; `none` = out of fuel -/
+def descVisFuel {α} [DecidableEq α] (succ : α → List α) : Nat → α → α → List α → Option (Bool × List α)
+  | 0, _, _, _ => none
+  | fuel + 1, child, anc, vis =>
+    if vis.contains child then some (false, vis)
+    else descListVis (fun p v => descVisFuel succ fuel p anc v) anc (succ child) (child :: vis)
+
+/-- `isEntityDescendant` (cedar_type.go): `isEntityDescendantFrom` started with an empty visited set over `ParentTypes` -/
+def isEntityDescendantFuel (rs : RSchema) (fuel : Nat) (child anc : String) : Option Bool :=
+  (descVisFuel rs.entityParents fuel child anc []).map (·.1)
 
 /-- `isActionDescendant` (policy.go): the same shape over action parents -/
 def isActionDescendantFuel (rs : RSchema) : Nat → UID → UID → Option Bool := descFuel rs.actionParents
@@ -473,9 +503,12 @@ inductive LitKind where
   | bool | long | string | entity | set | record | extension
 deriving DecidableEq, Repr
 
-/-- `typeOfValue`: the switch handles Boolean/Long/String, everything else goes through `val.(types.EntityUID)` -/
+/-- `typeOfValue`: every kind of literal has a case (Boolean/Long/String/EntityUID; the four extension values;
+    sets and records recurse into their members), `.ok ()` = "returns a type or an error", `.error ()` = panic.
+    Before the repair of `typeofvalue-non-entity-literal-panic` set/record/extension values fell through to
+    `val.(types.EntityUID)` and panicked. -/
 def typeOfValueOutcome : LitKind → Except Unit Unit
   | .bool | .long | .string | .entity => .ok ()
-  | .set | .record | .extension => .error ()     -- interface-conversion panic
+  | .set | .record | .extension => .ok ()
 
 end CedarGo.Schema
